@@ -46,6 +46,7 @@ class _State:
     squares = {}           # key of a*a -> a   (so sqrt(a*a) = |a| without a root atom)
     sqrt_atoms = {}        # atom id -> radicand SR  (atom == sqrt(radicand) >= 0)
     root_atoms = {}        # atom id -> (radicand polynomial SR, den)  (atom**den == radicand)
+    pending_defs = {}      # atom id -> z3 definitional constraint not yet asserted on this path (lazy)
 
 
 ST = _State()
@@ -61,6 +62,7 @@ def reset_atoms():
     ST.squares = {}
     ST.sqrt_atoms = {}
     ST.root_atoms = {}
+    ST.pending_defs = {}
 
 
 def _new_atom(zexpr):
@@ -338,6 +340,9 @@ def _zpoly(p):
     for m, c in p.items():
         fs = []
         for a, e in m:
+            if ST.pending_defs and a in ST.pending_defs:
+                # the atom is about to appear in a solver term: assert its definition now
+                ST.engine.add_def(ST.pending_defs.pop(a))
             fs.extend([ST.atoms[a]] * e)
         if not fs:
             terms.append(zval(c))
@@ -596,6 +601,22 @@ class SR(object):
                         if c1 < 0:
                             (c1, s1), (c2, s2) = (c2, s2), (c1, s1)
                         return lift(s1 * (c1 * c1))._cmp(s2 * (c2 * c2), op, zop)
+            sgn = _definite_binary_quadratic(d.p)
+            if sgn is not None:
+                # a definite form  a*x^2 + b*x*y + c*y^2  (b^2 < 4ac) has the sign of a unless x = y = 0
+                (x_, y_) = sgn[1]
+                nz = sym_or(SR({((x_, 1),): ONE}) != 0, SR({((y_, 1),): ONE}) != 0)
+                pos = sgn[0] > 0
+                if zop in (operator.gt, operator.ne):
+                    return nz if (pos or zop is operator.ne) else False
+                if zop is operator.ge:
+                    return True if pos else sym_not(nz)
+                if zop is operator.lt:
+                    return False if pos else nz
+                if zop is operator.le:
+                    return sym_not(nz) if pos else True
+                if zop is operator.eq:
+                    return sym_not(nz)
             dd = _canon_sign(d)
             if dd[1]:   # flipped sign
                 zop = _FLIP[zop]
@@ -675,6 +696,31 @@ class SR(object):
 
 _FLIP = {operator.lt: operator.gt, operator.gt: operator.lt, operator.le: operator.ge,
          operator.ge: operator.le, operator.eq: operator.eq, operator.ne: operator.ne}
+
+
+def _definite_binary_quadratic(p):
+    """(sign, (x, y)) when p = a*x^2 + b*x*y + c*y^2 over two plain atoms with b^2 < 4ac, else None."""
+    if not 2 <= len(p) <= 3:
+        return None
+    atoms = set()
+    for m in p:
+        if sum(e for _, e in m) != 2:
+            return None
+        for a, _ in m:
+            atoms.add(a)
+    if len(atoms) != 2:
+        return None
+    x, y = sorted(atoms)
+    if x in ST.abs_atoms or y in ST.abs_atoms or x in ST.root_atoms or y in ST.root_atoms:
+        pass
+    a = p.get(((x, 2),), ZERO)
+    c = p.get(((y, 2),), ZERO)
+    b = p.get(((x, 1), (y, 1)), ZERO)
+    if a == 0 or c == 0:
+        return None
+    if b * b < 4 * a * c:
+        return (1 if a > 0 else -1, (x, y))
+    return None
 
 
 def _canon_sign(d):
@@ -1085,11 +1131,12 @@ def sym_pow(x, e):
         for _ in range(den - 1):
             yd = yd * yv
         if xn.q is None:
-            eng.add_def(z3.And(yv >= 0, yd == xn.z))
+            zdef = z3.And(yv >= 0, yd == xn.z)
         else:
-            eng.add_def(z3.And(yv >= 0, yd * _zpoly(xn.q) == _zpoly(xn.p)))
+            zdef = z3.And(yv >= 0, yd * _zpoly(xn.q) == _zpoly(xn.p))
         y = SR.atom(yv)
         (m, _), = y.p.items()
+        ST.pending_defs[m[0][0]] = zdef      # asserted lazily, when the root first appears in a solver term
         ST.nonneg_atoms.add(m[0][0])
         if num == 1 and den == 2:
             ST.sqrt_atoms[m[0][0]] = x
@@ -1103,10 +1150,17 @@ def _int_root(n, k):
     """(r, rest) with n = r**k * rest and r as large as a simple search finds (exact integer arithmetic)."""
     if n <= 1:
         return (1, n)
-    r = int(round(n ** (1.0 / k)))
-    for c in (r, r + 1, r - 1):
-        if c > 0 and c ** k == n:
-            return (c, 1)
+    if n.bit_length() > 900:
+        return (1, n)
+    if k == 2:
+        r = math.isqrt(n)
+        if r * r == n:
+            return (r, 1)
+    else:
+        r = int(round(n ** (1.0 / k)))
+        for c in (r, r + 1, r - 1):
+            if c > 0 and c ** k == n:
+                return (c, 1)
     # strip small prime-power factors
     out = 1
     rest = n
